@@ -192,7 +192,26 @@ def grammar_texts(rng, extra):
     return out
 
 
+def long_chain_texts():
+    """one long operator chain on one line: the auditor's cost must stay polynomial in the length of an expression"""
+    out = []
+    for n in (12, 24, 40):
+        terms = " + ".join(f"x{i} * w" for i in range(n))
+        decl = "\n".join(f"    x{i} = SecretInteger(Input(name='x{i}', party=p))" for i in range(n))
+        out.append((f"long-chain-{n}", "from nada_dsl import *\n\ndef nada_main():\n    p = Party(name='P')\n    w = PublicInteger(Input(name='w', party=p))\n"
+                    + decl + f"\n    t = {terms}\n    return [Output(t, 'o', p)]\n"))
+        strs = " + ".join(f"'s{i}'" for i in range(n))
+        out.append((f"long-string-chain-{n}", "from nada_dsl import *\n\ndef nada_main():\n    p = Party(name='P')\n    a = SecretInteger(Input(name='a', party=p))\n"
+                    f"    nm = {strs}\n    return [Output(a, nm, p)]\n"))
+    nest = "a"
+    for i in range(30):
+        nest = f"({nest} - a)"
+    out.append(("deep-parentheses-30", "from nada_dsl import *\n\ndef nada_main():\n    p = Party(name='P')\n    a = SecretInteger(Input(name='a', party=p))\n"
+                f"    t = {nest}\n    return [Output(t, 'o', p)]\n"))
+    return out
+
+
 def all_texts(seed, tier):
     rng = random.Random(seed)
-    t = edge_texts() + hole_texts() + mutations(rng, 60 if tier == "quick" else 2000) + grammar_texts(rng, 100 if tier == "quick" else 4000)
+    t = edge_texts() + long_chain_texts() + hole_texts() + mutations(rng, 60 if tier == "quick" else 2000) + grammar_texts(rng, 100 if tier == "quick" else 4000)
     return t
